@@ -61,11 +61,25 @@ func refName(name string, replicas, num int) string {
 	return fmt.Sprintf("%s-%0*d", name, w, num)
 }
 
-func checkScale(c ScaleCase) pbt.Verdict {
+func checkScale(c ScaleCase) pbt.Verdict { return checkScaleMode(c, false) }
+
+// checkScaleState is the C09 view of the same histories: only the clause "the reported state
+// agrees with the ground truth at every quiescent point" is judged; anything else that goes
+// wrong makes the case inconclusive here (C13 judges it).
+func checkScaleState(c ScaleCase) pbt.Verdict { return checkScaleMode(c, true) }
+
+func checkScaleMode(c ScaleCase, stateOnly bool) pbt.Verdict {
 	var v pbt.Verdict
-	fail := func(format string, a ...any) pbt.Verdict {
+	failState := func(format string, a ...any) pbt.Verdict {
 		v.Violations = append(v.Violations, fmt.Sprintf(format, a...))
 		return v
+	}
+	fail := func(format string, a ...any) pbt.Verdict {
+		if stateOnly {
+			v.Skip = true
+			return v
+		}
+		return failState(format, a...)
 	}
 	s := &sc.Scenario{Procs: scaleProcs(c.Web, c.DB), FinishRounds: 3}
 	e, err := sc.Begin(s)
@@ -277,7 +291,15 @@ func checkScale(c ScaleCase) pbt.Verdict {
 		}
 		list, err := listed()
 		if err != nil {
-			return fail("op %d: GetProcessesState after scaling: %v", oi, err)
+			return failState("op %d: GetProcessesState after scaling: %v", oi, err)
+		}
+		// reported state vs ground truth, per replica, at this quiescent point (renamed survivors,
+		// ended replicas, added and untouched ones alike)
+		for name, st := range list {
+			alive := len(after[name]) > 0
+			if st.IsRunning != alive || (st.Status == "Running") != alive {
+				return failState("op %d: after scaling %s %d->%d, %s is reported status=%s is_running=%v while it has %d live commands", oi, op.Proc, cur, n, name, st.Status, st.IsRunning, len(after[name]))
+			}
 		}
 		for name := range fresh.Processes {
 			if _, ok := list[name]; !ok {
@@ -379,6 +401,10 @@ func genScale(t *rapid.T) ScaleCase {
 		c.Ops = append(c.Ops, op)
 	}
 	return c
+}
+
+func TestC09Scale(t *testing.T) {
+	pbt.Run(t, pbt.Spec[ScaleCase]{Prop: "C09", Test: "TestC09Scale", Engine: "lifecycle", Gen: genScale, Check: checkScaleState})
 }
 
 func TestC13(t *testing.T) {
